@@ -2,7 +2,10 @@
    - the wrapper enters tracing_enabled(...) for each tracer of the list, in list order (utils.multi_context = ExitStack),
      runs the function and leaves the contexts in a `finally` path: a decorated call IS the history `wrap ts body` of the
      context machine model/Ctx.v;
-   - the rewritten code object is the first code constant of the recompiled snippet that carries the function's name.
+   - the rewritten code object is the first code constant of the recompiled snippet that carries the function's name
+     (`select`); since f44fd25 (`find_function_code`) the search descends, level by level, into the code objects that evaluate type
+     parameters (PEP 695: the code of `def f[T](...)` is a constant of `<generic parameters of f>`), and into nothing else
+     (`find_code` over code-object trees).
    No proofs in this file. *)
 From Coq Require Import List NArith Bool Arith.
 Import ListNotations.
@@ -24,3 +27,27 @@ Definition select (name : N) (consts : list (option N)) : option nat :=      (* 
      | Some n :: l' => if N.eqb n name then Some i else go l' (S i)
      | None :: l' => go l' (S i)
      end) consts 0.
+
+(* ---- tracer.find_function_code: code objects as trees (only the code-object constants matter) *)
+Inductive cobj : Set := CO (uid : N) (cname : N) (generic : bool) (consts : list cobj).
+    (* uid: which object; cname: co_name; generic: co_name starts with "<generic parameters" *)
+Definition co_uid (c : cobj) : N := match c with CO u _ _ _ => u end.
+Definition co_name (c : cobj) : N := match c with CO _ n _ _ => n end.
+Definition co_generic (c : cobj) : bool := match c with CO _ _ g _ => g end.
+Definition co_consts (c : cobj) : list cobj := match c with CO _ _ _ cs => cs end.
+Definition next_consts (level : list cobj) : list cobj := flat_map co_consts level.
+(* while level: consts = the code constants of the level; the first one with the name wins; else level = its generic-parameter objects *)
+Fixpoint find_code (fuel : nat) (level : list cobj) (name : N) : option cobj :=
+  match fuel with
+  | 0 => None
+  | S k =>
+      match level with
+      | [] => None
+      | _ => match find (fun c => N.eqb (co_name c) name) (next_consts level) with
+             | Some c => Some c
+             | None => find_code k (filter co_generic (next_consts level)) name
+             end
+      end
+  end.
+Fixpoint depth (c : cobj) : nat :=
+  match c with CO _ _ _ cs => S ((fix go (l : list cobj) : nat := match l with [] => 0 | x :: l' => Nat.max (depth x) (go l') end) cs) end.
